@@ -4,13 +4,19 @@ let csv_of (l : n list) : string = if l = [] then "-" else String.concat "," (Li
 let of_csv (s : string) : n list =
   if s = "-" || s = "" then [] else List.map n_of_string (String.split_on_char ',' s)
 
+(* direct conversions for small numbers (no big-integer detour) *)
+let rec small_of_pos (p : positive) (acc_bits : int) : int =
+  if acc_bits > 60 then max_int
+  else match p with XH -> 1 | XO q -> 2 * small_of_pos q (acc_bits + 1) | XI q -> (2 * small_of_pos q (acc_bits + 1)) + 1
+let small_of_n (x : n) : int = match x with N0 -> 0 | Npos p -> small_of_pos p 0
+
 (* Blake2b with a table of already computed inputs (the model asks for the same 36-byte block
    once per drawn number, as F.2 is written) *)
 let tbl : (string, n list) Hashtbl.t = Hashtbl.create 65536
 let memo_blake (l : n list) : n list =
   let b = Buffer.create 40 in
   let ok = ref true in
-  List.iter (fun x -> let v = int_of_n x in if v > 255 then ok := false else Buffer.add_char b (Char.chr v)) l;
+  List.iter (fun x -> let v = small_of_n x in if v > 255 || v < 0 then ok := false else Buffer.add_char b (Char.chr v)) l;
   if not !ok then blake2b_fast_n l
   else begin
     let k = Buffer.contents b in
@@ -44,7 +50,10 @@ let model toks =
     let s = of_csv s and r = of_csv r in
     let a = f_fast s r in
     if List.length s <= 24 && f s r <> a then "MODEL-INCONSISTENT" else csv_of a
-  | [ "qseq"; e; l ] -> csv_of (qseq memo_blake (bytes_of_hex e) (nat_of_int (int_of_string l)))
+  | [ "qseq"; e; l ] ->
+    let h = bytes_of_hex e and l = nat_of_int (int_of_string l) in
+    let a = qseq_fast memo_blake h l in
+    if qseq memo_blake h l <> a then "MODEL-INCONSISTENT" else csv_of a
   | [ "shuf"; e; s ] -> csv_of (shuffle_fast memo_blake (of_csv s) (bytes_of_hex e))
   | [ "rot"; c; k; s ] ->
     csv_of (rotate { pV = n_of_int 0; pC = n_of_string c; pE = n_of_int 1; pR = n_of_int 1 } (of_csv s) (n_of_string k))
